@@ -32,6 +32,7 @@ import (
 func init() { register("C09", checkC09) }
 
 func checkC09(p *Prog, r *Report) {
+	requireRecognisedDispatch(p)
 	r.NotCov = append(r.NotCov,
 		"tokenisation of arbitrary statement text by the generated lexer (trusted)",
 		"selector parsing of handled statements (C10)")
@@ -45,6 +46,7 @@ func checkC09(p *Prog, r *Report) {
 	c09UseKeepsSpelling(p, r, "C09.current-keyspace")
 	c06IdentifierTokenAs(p, r, "C09.identifier-token")
 	tokenBased(p, r, "C09.token-based")
+	resultThreading(p, r, "C09.result-threading", "parser", "proxy")
 }
 
 func c09Tables(p *Prog, r *Report) {
@@ -249,8 +251,11 @@ func c09Dispatch(p *Prog, r *Report) {
 			if isId && (!known || !h) {
 				ub = append(ub, "USE <identifier> is not handled (it would be forwarded and change a shared backend connection's keyspace)")
 			}
-			if !isId && (!known || h) {
-				ub = append(ub, "USE without identifier reported handled")
+			// (an earlier version of this clause demanded 'not handled' here: it described what the
+			// code did, and the code was wrong - defect #44: forwarded, the statement switches the
+			// keyspace of a backend connection shared with other clients)
+			if !isId && (!known || !h || o.Ret.elem(2).K != avNonNil) {
+				ub = append(ub, "USE without a readable identifier is not answered by the proxy with an error: forwarded, it would change a shared backend connection's keyspace")
 			}
 		}
 		r.count("sim_states", s.Nodes)
@@ -790,6 +795,70 @@ type memberRole struct {
 	sliceParam int // index in fn.Params of the table, -1 when fn loads the global itself
 	g          *ssa.Global
 	wrappers   []*ssa.Function // name -> bool functions that only return fn(name, table)
+	anyOf      bool            // fn only returns anyOf(table, name.equal) through a recognised membership helper
+}
+
+// membershipAnyOf: f(name) only returns helper(<table g>, name.equal) where helper is a membership
+// helper with a predicate (slices.ContainsFunc or a repository function of that shape, anyOfKind).
+func membershipAnyOf(p *Prog, f *ssa.Function, g *ssa.Global) bool {
+	var theCall *ssa.Call
+	n := 0
+	eachCall(f, func(c ssa.CallInstruction) {
+		cc, isCall := c.(*ssa.Call)
+		if !isCall || len(cc.Call.Args) != 2 || p.anyOfKind(cc.Call.StaticCallee()) != "func" {
+			return
+		}
+		if ld, ok := cc.Call.Args[0].(*ssa.UnOp); ok && sameGlobal(ld.X, g) {
+			theCall = cc
+			n++
+		}
+	})
+	if n != 1 {
+		return false
+	}
+	// the predicate is the queried name's Identifier.equal
+	pred := theCall.Call.Args[1]
+	if ct, ok := pred.(*ssa.ChangeType); ok {
+		pred = ct.X
+	}
+	mc, ok := pred.(*ssa.MakeClosure)
+	if !ok || len(mc.Bindings) != 1 {
+		return false
+	}
+	bound, ok := mc.Fn.(*ssa.Function)
+	if !ok || !strings.Contains(bound.Synthetic, "bound") {
+		return false
+	}
+	m := unwrapBound(bound)
+	if m == nil || m.Name() != "equal" || recvNamed(m) == nil || recvNamed(m).Obj().Name() != "Identifier" {
+		return false
+	}
+	subj := false
+	for _, o := range origins(mc.Bindings[0]) {
+		if o == ssa.Value(f.Params[0]) {
+			subj = true
+		}
+		if ld, ok := o.(*ssa.UnOp); ok {
+			if al, ok := ld.X.(*ssa.Alloc); ok && al.Comment == f.Params[0].Name() {
+				subj = true
+			}
+		}
+		if al, ok := o.(*ssa.Alloc); ok && al.Comment == f.Params[0].Name() {
+			subj = true
+		}
+	}
+	if !subj {
+		return false
+	}
+	okRet := true
+	eachInstr(f, func(in ssa.Instruction) {
+		if ret, ok := in.(*ssa.Return); ok {
+			if len(ret.Results) != 1 || ret.Results[0] != ssa.Value(theCall) {
+				okRet = false
+			}
+		}
+	})
+	return okRet
 }
 
 // membershipWrapperOf: f(name) only returns helper(name, <table g>); gives the helper and the
@@ -859,6 +928,9 @@ func membershipRole(p *Prog, g *ssa.Global) *memberRole {
 		})
 		if loads && f.Signature.Results().Len() == 1 {
 			if b, ok := f.Signature.Results().At(0).Type().Underlying().(*types.Basic); ok && b.Kind() == types.Bool && len(f.Params) == 1 {
+				if !eq && membershipAnyOf(p, f, g) {
+					return &memberRole{fn: f, sliceParam: -1, g: g, anyOf: true}
+				}
 				if !eq {
 					// a one-line wrapper `return helper(name, table)`: the test itself lives in the helper
 					if h, idx := membershipWrapperOf(p, f, g); h != nil {
@@ -928,6 +1000,12 @@ func (m *memberRole) isCall(call ssa.CallInstruction) (ssa.Value, bool) {
 // comparison of the tested identifier with a table entry, false only after all entries.
 func (m *memberRole) check(p *Prog) []string {
 	fn := m.fn
+	if m.anyOf {
+		if membershipAnyOf(p, fn, m.g) {
+			return nil
+		}
+		return []string{"is not a membership test over the table through Identifier.equal"}
+	}
 	var mb []string
 	var eqCalls []*ssa.Call
 	eachCall(fn, func(c ssa.CallInstruction) {
@@ -1013,7 +1091,6 @@ func (m *memberRole) check(p *Prog) []string {
 	}
 	return dedupe(mb)
 }
-
 
 // c09UseKeepsSpelling: the keyspace of a USE statement is kept as written.  The proxy stores it as
 // the connection's current keyspace and parses it again for every later statement: stripped of its
